@@ -8,6 +8,8 @@ def step (_ : Unit) (toks : List String) : Unit × String :=
   match toks with
   | "hash" :: _ :: _ => ((), "ctxzero")
   | "hmac" :: _ :: _ :: _ => ((), "ctxzero")
+  | ["aesmode", m] => ((), "aesmode " ++ m)
+  | ["hooktest", m] => ((), "hooktest " ++ m)
   | ["aeskey", _] => ((), "freed zero")
   | "aesctr" :: _ :: _ :: _ :: _ => ((), "freed zero")
   | ["dh", _, _, _, _] => ((), "clean")
